@@ -313,3 +313,25 @@ func VReplicas() {
 	zzv.Observe("replicas", len(ms))
 	zzv.Cover("replicas.end")
 }
+
+// vSortSlice stands in for sort.Slice under the symbolic executor (the library version swaps
+// through reflection): an insertion sort with the caller's less function, for the slice types
+// this package could sort.
+func vSortSlice(x interface{}, less func(i, j int) bool) {
+	switch s := x.(type) {
+	case []corev1.Pod:
+		for i := 1; i < len(s); i++ {
+			for j := i; j > 0 && less(j, j-1); j-- {
+				s[j], s[j-1] = s[j-1], s[j]
+			}
+		}
+	case []string:
+		for i := 1; i < len(s); i++ {
+			for j := i; j > 0 && less(j, j-1); j-- {
+				s[j], s[j-1] = s[j-1], s[j]
+			}
+		}
+	default:
+		panic("vSortSlice: unsupported slice type")
+	}
+}
